@@ -1,6 +1,6 @@
 (* Observation vectors for the C20 contract tie: what hx_utf8 prints, predicted by the model. *)
 From Coq Require Import NArith ZArith Bool List.
-From Aelys Require Import Model.Utf8.
+From Aelys Require Import Model.Utf8 Model.Utf8Natives.
 Import ListNotations.
 Local Open Scope Z_scope.
 
@@ -8,7 +8,8 @@ Inductive uq :=
 | QEnc (c : N)                 (* one scalar through encode_utf8 / len_utf8 / chars().next() *)
 | QStr (bytes : list N)        (* a valid string through len / chars / count / nth *)
 | QSum (lo hi : N)             (* checksum over all valid scalars in [lo, hi) *)
-| QProg (k : sel) (cs : list N). (* an Aelys program observing the string utf8 cs; k = loop opcode selected *)
+| QProg (k : sel) (cs : list N)  (* an Aelys program observing the string utf8 cs; k = loop opcode selected *)
+| QNat (cs ps : list N).         (* an Aelys program calling the character natives on utf8 cs, pad string utf8 ps *)
 
 Definition zn (n : nat) : Z := Z.of_nat n.
 Definition zs (l : list N) : list Z := map Z.of_N l.
@@ -69,10 +70,29 @@ Definition prog_obs (k : sel) (cs : list N) : list Z :=
       ++ load_obs (load_char s (zn n)) ++ load_obs (load_char s (zn n + 1))
   end.
 
+(* natives program (hx_utf8 nat_program): fixed order, every result framed *)
+Definition sub_params (n : Z) : list (Z * Z) :=
+  [(0, n); (1, 2); (n - 1, 5); (n, 1); (n + 1, 1); (0, 0); (-1, 2); (2, -1); (1, n)].
+Definition nat_obs (cs ps : list N) : list Z :=
+  let s := utf8 cs in
+  let n := zn (length cs) in
+  let bl := zn (length s) in
+  let pad := utf8 ps in
+  concat (map (fun k => framed (nat_char_at s (zn k - 1))) (upto (length cs + 3)))
+  ++ concat (map (fun al => framed (nat_substr s (fst al) (snd al))) (sub_params n))
+  ++ framed (nat_reverse s)
+  ++ framed (nat_pad_left s (n - 1) pad) ++ framed (nat_pad_left s (n + 2) pad)
+  ++ framed (nat_pad_right s (n + 2) pad) ++ framed (nat_pad_right s 0 pad)
+  ++ framed (nat_repeat s (-1)) ++ framed (nat_repeat s 0) ++ framed (nat_repeat s 1) ++ framed (nat_repeat s 2)
+  ++ framed (nat_chars s) ++ framed (nat_split_empty s)
+  ++ framed (nat_concat s pad)
+  ++ map (nat_byte_at s) [-1; 0; bl - 1; bl].
+
 Definition uobs (q : uq) : list Z :=
   match q with
   | QEnc c => enc_obs c
   | QStr s => str_obs s
   | QSum lo hi => sum_obs lo hi
   | QProg k cs => prog_obs k cs
+  | QNat cs ps => nat_obs cs ps
   end.
